@@ -46,6 +46,7 @@ type Method struct {
 	Name    string
 	Params  []*Type
 	Results []*Type
+	NilSafe bool // begins with 'if r == nil { return literals }': callable on a nil reference
 }
 
 type Struct struct {
